@@ -71,10 +71,10 @@ func c01eSplit(c *Ctx, fn *ssa.Function) {
 		pred := phi.Block().Preds[i]
 		must := c.mustLits(fn, pred)
 		term := c.term(fn, e)
-		if hasLit(must, "+(*emitter.chunk).isLastStatement($0,$1)@0") && term == "$0.returnID" {
+		if hasLit(must, "+"+isLastLit) && term == "$0.returnID" {
 			okLast = true
 		}
-		if hasLit(must, "-(*emitter.chunk).isLastStatement($0,$1)@0") && strings.HasPrefix(term, "(*emitter.chunk).createPostLogicChunk($0,") && strings.HasSuffix(term, ".id") {
+		if hasLit(must, "-"+isLastLit) && strings.HasPrefix(term, "(*emitter.chunk).createPostLogicChunk($0,") && strings.HasSuffix(term, ".id") {
 			okNew = true
 		}
 	}
